@@ -13,7 +13,7 @@ import (
 func init() {
 	register(Property{
 		ID: "C13",
-		Explanation: "Decided statically: R1 every store into the name->object tables (Types/Constants/Functions) is dominated by a package-scope test on the stored object (obj.Parent() == pkg.Scope(), or objects taken from Scope().Names()/Lookup); R2 the methods map is keyed - at every store and lookup - by the declared named type ((*types.Named).Origin()), so generic receivers are grouped under the declaration; R3 in Load's registering closure no path leads from the construction of a package record (which reads the universe for its imports) to a recursive registration, every call of the closure is dominated by an absence test on the universe for the same package, and the record is stored after construction; R4 MethodsOf(T,false) keeps a method iff its receiver type is not a pointer; R5 the receiver classification and the filter look through aliases. R6 the read accessors of a loaded package are plain reads of what Load stored, and SourceDir derives the directory from Dir and Path of one and the same module value; R7 methods of the loaded package / universe write no receiver state after Load, except the reviewed idempotent SourceDir memo. NOT decided: value-level equality of the tables with Scope().Names() for every loaded package; SourceDir()/LocateInPackage agreement with the file system (derived from Module.Dir, an environment fact).",
+		Explanation: "Decided statically: R1 every store into the name->object tables (Types/Constants/Functions) is dominated by a package-scope test on the stored object (obj.Parent() == pkg.Scope(), or objects taken from Scope().Names()/Lookup); R2 the methods map is keyed - at every store and lookup - by the declared named type ((*types.Named).Origin()), so generic receivers are grouped under the declaration; R3 in Load's registering closure no path leads from the construction of a package record (which reads the universe for its imports) to a recursive registration, every call of the closure is dominated by an absence test on the universe for the same package, and the record is stored after construction; R4 MethodsOf(T,false) keeps a method iff its receiver type is not a pointer; R5 the receiver classification and the filter look through aliases. R6 the read accessors of a loaded package are plain reads of what Load stored, and SourceDir derives the directory from Dir and Path of one and the same module value; R7 methods of the loaded package / universe write no receiver state after Load, except the reviewed idempotent SourceDir memo. R3 also: every iteration of the loop over a package's imports registers the import unless the universe already has it; R8 no caller in the library stores into, deletes from or clears a map obtained from a method of a loaded package or the universe. NOT decided: value-level equality of the tables with Scope().Names() for every loaded package; SourceDir()/LocateInPackage agreement with the file system (derived from Module.Dir, an environment fact).",
 		Assumptions: commonAssumptions,
 		Run:         runC13,
 	})
@@ -52,6 +52,7 @@ func runC13(p *core.Program, r *core.Report) {
 	a10Report(p, r, "R5", "pkg/types")
 	c13R6(p, r)
 	c13R7(p, r)
+	c13R8(p, r)
 }
 
 // c13R6: the read accessors of a loaded package are plain reads of what Load
@@ -164,11 +165,19 @@ func c13R6(p *core.Program, r *core.Report) {
 // universe write no receiver state (no caches filled while generators run),
 // except the reviewed idempotent SourceDir memo.
 func c13R7(p *core.Program, r *core.Report) {
-	const rule = "R7"
-	r.Floor(rule, 2)
+	r.Floor("R7", 2)
+	universeWriteScan(p, r, "R7", nil)
+}
+
+// universeWriteScan is shared by C13.R7 (all methods) and C12.R5 (the methods
+// reachable from Doc / Comment: what they return must be built per call).
+func universeWriteScan(p *core.Program, r *core.Report, rule string, only map[*core.Func]bool) {
 	n := 0
 	for _, f := range p.Funcs() {
 		root := f.Root()
+		if only != nil && !only[root] {
+			continue
+		}
 		if core.RelPkg(f.Pkg.PkgPath) != "pkg/types" || root.Decl == nil || root.Decl.Recv == nil {
 			continue
 		}
@@ -451,7 +460,7 @@ func c13R2(p *core.Program, r *core.Report) {
 
 func c13R3(p *core.Program, r *core.Report) {
 	const rule = "R3"
-	r.Floor(rule, 4)
+	r.Floor(rule, 5)
 	load := p.FuncByName("pkg/types", "Load")
 	if load == nil {
 		r.Anchor(rule, "pkg/types.Load")
@@ -549,6 +558,66 @@ func c13R3(p *core.Program, r *core.Report) {
 	for _, c := range recursive {
 		checkCall(reg, c)
 	}
+	// every import is registered before the record is built: an iteration of the loop over the
+	// package's imports ends without the recursive registration only on the "already registered" edge
+	isPresentTest := func(in *core.Func, e ast.Expr) bool {
+		v := core.VarOf(info, e)
+		if v == nil {
+			return false
+		}
+		d, isDef := core.SingleDef(info, in.Body, v)
+		if !isDef || d.Index != 1 {
+			return false
+		}
+		ix, isIx := ast.Unparen(d.Rhs).(*ast.IndexExpr)
+		if !isIx {
+			return false
+		}
+		f := core.FieldOf(info, ix.X)
+		return f != nil && f.Name() == "pkgs"
+	}
+	nImportLoops := 0
+	ast.Inspect(reg.Body, func(n ast.Node) bool {
+		rs, ok := n.(*ast.RangeStmt)
+		if !ok {
+			return true
+		}
+		sel, isSel := ast.Unparen(rs.X).(*ast.SelectorExpr)
+		if !isSel || sel.Sel.Name != "Imports" {
+			return true
+		}
+		nImportLoops++
+		isRec := func(m ast.Node) bool {
+			for _, c := range core.Calls(m, true) {
+				if core.VarOf(info, c.Fun) == regVar {
+					return true
+				}
+			}
+			return false
+		}
+		skip := func(b *cfgBlock, k int) bool {
+			if len(b.Succs) != 2 || len(b.Nodes) == 0 {
+				return false
+			}
+			e, ok := b.Nodes[len(b.Nodes)-1].(ast.Expr)
+			if !ok {
+				return false
+			}
+			for _, a := range cfgx.Atoms(e, k == 0) {
+				if a.Val && isPresentTest(reg, a.Cond) {
+					return true // the package is already in the universe on this edge
+				}
+			}
+			return false
+		}
+		without, _ := exactlyOnePerIteration(g, rs, isRec, skip)
+		r.Check(!without, rule, reg, "every imported package is registered before the record is built", rs.Pos(), "each iteration over p.Imports registers the import unless the universe already has it",
+			"an import can be skipped without being registered (e.g. std packages imported by std packages): newPkg then maps that import path to nil, and the skipped package is missing from the universe unless something else imports it")
+		return true
+	})
+	if nImportLoops == 0 {
+		r.Anchor(rule, "loop over p.Imports in the registering closure")
+	}
 	top := 0
 	for _, c := range core.Calls(load.Body, true) {
 		if core.VarOf(info, c.Fun) == regVar {
@@ -637,5 +706,59 @@ func c13R4(p *core.Program, r *core.Report) {
 	})
 	if !found {
 		r.Anchor(rule, "filter append in MethodsOf")
+	}
+}
+
+// c13R8: the accessors hand out the universe's own maps (Types(), Constants(),
+// Functions(), Imports() ...). No caller may store into, delete from or clear a
+// map obtained from a method of a loaded package / universe: the tables would
+// stop mirroring the type checker's scope for everyone else.
+func c13R8(p *core.Program, r *core.Report) {
+	const rule = "R8"
+	r.Floor(rule, 1)
+	fromUniverse := func(f *core.Func, e ast.Expr) (string, bool) {
+		info := f.Info()
+		e, _ = core.Resolve(info, f.Root().Body, e)
+		c, ok := ast.Unparen(e).(*ast.CallExpr)
+		if !ok || !isMapType(info.TypeOf(c)) {
+			return "", false
+		}
+		name := core.CalleeName(info, c)
+		if strings.Contains(name, core.ModulePath+"/pkg/types.Package).") || strings.Contains(name, core.ModulePath+"/pkg/types.pkgInfo).") || strings.Contains(name, core.ModulePath+"/pkg/types.Universe).") {
+			return name[strings.LastIndex(name, ".")+1:], true
+		}
+		return "", false
+	}
+	n := 0
+	for _, f := range p.Funcs() {
+		info := f.Info()
+		ast.Inspect(f.Body, func(nd ast.Node) bool {
+			if lit, ok := nd.(*ast.FuncLit); ok && lit != f.Lit {
+				return false
+			}
+			switch x := nd.(type) {
+			case *ast.AssignStmt:
+				for _, l := range x.Lhs {
+					if ix, ok := ast.Unparen(l).(*ast.IndexExpr); ok && isMapType(info.TypeOf(ix.X)) {
+						if m, ok := fromUniverse(f, ix.X); ok {
+							n++
+							r.Bad(rule, f, "store into the map returned by "+m+"(): "+core.ExprStr(x), x.Pos(), "the accessor returns the universe's own table; writing to it changes what every other caller of "+m+"() sees")
+						}
+					}
+				}
+			case *ast.CallExpr:
+				cn := core.CalleeName(info, x)
+				if (cn == "builtin.delete" || cn == "builtin.clear" || cn == "maps.DeleteFunc" || cn == "maps.Copy" || cn == "maps.Insert") && len(x.Args) >= 1 {
+					if m, ok := fromUniverse(f, x.Args[0]); ok {
+						n++
+						r.Bad(rule, f, core.ExprStr(x.Fun)+" on the map returned by "+m+"(): "+core.ExprStr(x), x.Pos(), "the accessor returns the universe's own table; removing entries prunes the package's tables for every later caller (Types()/Type(name) no longer match the type checker's scope after a run)")
+					}
+				}
+			}
+			return true
+		})
+	}
+	if n == 0 {
+		r.OK(rule, nil, "no caller writes to a table handed out by a loaded package", token.NoPos, "scan of stores/delete/clear on maps obtained from Package / Universe methods")
 	}
 }
